@@ -80,4 +80,37 @@ fn start_base_and_offsets(whirlpool: &Account<Whirlpool>, a_to_b: bool) -> (r: (
             assert(n * (t / n) == (t / n) * n) by(nonlinear_arith);
             assert(-443637 - n < (t / n) * n <= 443636); }
 //@ end
+
+// ------------------------------------------------------------------ try_build, first loop: which supplied accounts are loaded
+//@ assume try_build shims: AccountInfo is reduced to its key; LoadedTickArrayMut (a RefMut<dyn TickArrayType>) is an opaque token; maybe_load_tick_array (system-owned empty account -> None, otherwise load_tick_array_mut: owner, discriminator and whirlpool-field checks) is an external stub whose result is an uninterpreted function loaded_of(account, pool key); only the FIRST loop of try_build (loading) is verified, as a segment; the selection loop (iter().position / remove / VecDeque / any) is outside Verus
+pub struct AccountInfo<'a> { pub key: &'a Pubkey }
+pub struct LoadedTickArrayMut<'a> { pub src: &'a Pubkey }
+pub uninterp spec fn loaded_of<'a>(a: AccountInfo<'a>, pool: Pubkey) -> Result<Option<LoadedTickArrayMut<'a>>>;
+#[verifier::external_body]
+fn maybe_load_tick_array<'a>(account_info: &'a AccountInfo<'_>, whirlpool: &Account<Whirlpool>) -> (r: Result<Option<LoadedTickArrayMut<'a>>>)
+    ensures r == loaded_of(*account_info, whirlpool.k)
+{ unimplemented!() }
+/// the loaded (initialized) arrays among the first n supplied accounts, in order
+pub open spec fn loaded_spec<'a>(accs: Seq<AccountInfo<'a>>, pool: Pubkey, n: int) -> Seq<LoadedTickArrayMut<'a>> decreases n {
+    if n <= 0 { Seq::empty() } else {
+        let prev = loaded_spec(accs, pool, n - 1);
+        match loaded_of(accs[n - 1], pool) { Ok(Some(t)) => prev.push(t), _ => prev } }
+}
+pub struct SparseSwapTickSequenceBuilder<'info> { pub tick_array_accounts: Vec<AccountInfo<'info>> }
+impl<'info> SparseSwapTickSequenceBuilder<'info> {
+/// C10: EVERY supplied account is examined: an account that fails the loader's checks (another pool's array, wrong owner, wrong discriminator) makes the build
+/// fail wherever it stands in the list, and every initialized array supplied is available to the selection that follows (none is silently replaced by a zeroed proxy)
+//@ seg util/sparse_swap.rs try_build in=/^impl<'info> SparseSwapTickSequenceBuilder<'info> \{/ from=/let mut loaded_tick_arrays: Vec<LoadedTickArrayMut> = / to=/let start_tick_indexes = get_start_tick_indexes/ ret=Ok(loaded_tick_arrays)
+fn try_build_load<'a>(&'a self, whirlpool: &Account<Whirlpool>) -> (r: Result<Vec<LoadedTickArrayMut<'a>>>)
+    ensures
+        r matches Ok(v) ==> v@ == loaded_spec(self.tick_array_accounts@, whirlpool.k, self.tick_array_accounts@.len() as int),
+        (exists|i: int| 0 <= i < self.tick_array_accounts@.len() && #[trigger] loaded_of(self.tick_array_accounts@[i], whirlpool.k) is Err) ==> r is Err,
+//@ rewrite /for account_info in &self\.tick_array_accounts \{/ => /let mut ai_it: usize = 0; while ai_it < self.tick_array_accounts.len() { let account_info = &self.tick_array_accounts[ai_it]; ai_it = ai_it + 1;/
+//@ loop 0
+        invariant ai_it <= self.tick_array_accounts.len(),
+            loaded_tick_arrays@ == loaded_spec(self.tick_array_accounts@, whirlpool.k, ai_it as int),
+            forall|i: int| 0 <= i < ai_it ==> !(#[trigger] loaded_of(self.tick_array_accounts@[i], whirlpool.k) is Err),
+        decreases self.tick_array_accounts.len() - ai_it,
+//@ end
+}
 }
